@@ -212,6 +212,8 @@ class Facts:
             closure_keys = {self.rewriter._k(k) for k in al.unmatched_closures}
         known = json.load(open(os.path.join(VERIF, 'rules', 'tables', 'known_functions.json')))['names']
         self.lib = mir.Crate(None, known_names=set(known), preloaded=lib_j, helper_keys=helper_keys, closure_keys=closure_keys)
+        from . import util as _U
+        _U.note_refcnt_params(self.lib)
         self._roots = None
         self._mono = None
         self.meta = json.load(open(os.path.join(d, 'ok.json')))
